@@ -588,7 +588,8 @@ func contentList(computer *ComputedStyle, values pr.ContentProperties) (pr.Conte
 		case "attr()":
 			attr, ok := value.Content.(pr.AttrData)
 			if !ok || attr.TypeOrUnit != "string" {
-				panic(fmt.Sprintf("invalid attr() property : %v", value.Content))
+				// e.g. attr(x url), accepted by the validator: the value is dropped
+				return nil, fmt.Errorf("invalid attr() property : %v", value.Content)
 			}
 			var err error
 			computedValue, err = computeAttrFunction(computer, attr)
